@@ -181,6 +181,8 @@ def run_isolated(engine, plan, timeout_s: int = 120) -> dict:
             return json.loads(canon(engine.execute(plan)))
         except BaseException:  # noqa: BLE001
             return {"harness_error": traceback.format_exc()[-4000:]}
+    if hasattr(engine, "worker_init"):
+        engine.worker_init()
     sys.stdout.flush()
     sys.stderr.flush()
     rfd, wfd = os.pipe()
@@ -220,6 +222,8 @@ def _worker_chunk(args):
     engine = _ENGINE
     out = []
     timeouts = 0
+    if hasattr(engine, "worker_init"):
+        engine.worker_init()  # per-process helpers (e.g. the pristine reference interpreter of C04)
     for idx in indices:
         if timeouts >= 2:
             out.append((idx, None, {"harness_error": "skipped: two runs of this chunk timed out before"}, 0.0))
@@ -234,6 +238,8 @@ def _worker_chunk(args):
         res = run_isolated(engine, plan, timeout_s)
         if "harness_error" in res and res["harness_error"].startswith("timeout"):
             timeouts += 1
+            if hasattr(engine, "worker_reset"):
+                engine.worker_reset()
         out.append((idx, plan, res, time.perf_counter() - t0))
     return out
 
